@@ -198,6 +198,20 @@ func TestVerif_C31(t *testing.T) {
 			moved := netip.AddrPortFrom(netip.AddrFrom4([4]byte{x.scid[len(x.scid)-1], a4[0], a4[1], a4[2]}), uint16(a4[3])<<8|x.addr.Port()>>8)
 			reject("scid", "last SCID byte shifted into the address", x.token, x.scid[:len(x.scid)-1], x.rscid, moved)
 		}
+		// the same bytes of (client SCID, address) split differently across the two fields and
+		// the two address families: 12 bytes move between the SCID and a 16-byte address
+		if x.addr.Addr().Is6() && !x.addr.Addr().Is4In6() && len(x.scid)+12 <= maxConnIDLen {
+			a16 := x.addr.Addr().As16()
+			scid2 := append(append([]byte{}, x.scid...), a16[:12]...)
+			reject("reframed", "SCID extended by the first 12 address bytes, last 4 address bytes presented as IPv4", x.token, scid2, x.rscid, netip.AddrPortFrom(netip.AddrFrom4([4]byte(a16[12:])), x.addr.Port()))
+		}
+		if x.addr.Addr().Is4() && len(x.scid) >= 12 {
+			a4 := x.addr.Addr().As4()
+			var a16 [16]byte
+			copy(a16[:12], x.scid[len(x.scid)-12:])
+			copy(a16[12:], a4[:])
+			reject("reframed", "last 12 SCID bytes moved in front of the IPv4 address to form an IPv6 address", x.token, x.scid[:len(x.scid)-12], x.rscid, netip.AddrPortFrom(netip.AddrFrom16(a16), x.addr.Port()))
+		}
 		// client source connection ID
 		for bit := 0; bit < 8*len(x.scid); bit++ {
 			reject("scid", fmt.Sprintf("client SCID bit %d flipped", bit), x.token, c31flip(x.scid, bit), x.rscid, x.addr)
